@@ -59,10 +59,14 @@ def norm_ann(a):
             nv = _mods(v)
             if nv:
                 internal.append([k, nv])
+        if all(isinstance(kv[0], int) and not isinstance(kv[0], bool) for kv in internal):
+            internal.sort(key=lambda kv: kv[0])      # dict order is not observable state
         internal = internal or None
     ivs = None
     if a.intervals:
         ivs = [_interval(iv) if isinstance(iv, _pt.Interval) else ['raw', norm(iv)] for iv in a.intervals] or None
+        if ivs and all(iv[0] == 'interval' and isinstance(iv[1], int) and isinstance(iv[2], int) for iv in ivs):
+            ivs.sort(key=lambda iv: (iv[1], iv[2]))      # the order of the interval list is not observable state
     return ['ann', {
         'seq': a.sequence,
         'isotope': _mods(a.isotope_mods),
